@@ -15,7 +15,7 @@ VALUES = ["A", "B", "", 0, 1, -1, 2.5, None, True, ("t", 1), "é", 10 ** 30, flo
 
 
 def population(rng):
-    n = rng.choice([1, 2, 3, 5, 8, 20, 64, 64, 100, 127, 128, 129, 255, 256, 257, 1000]) if rng.random() < 0.9 else rng.choice([4097, 10007])
+    n = rng.choice([1, 2, 3, 5, 8, 20, 64, 64, 100, 127, 128, 129, 255, 256, 257, 1000]) if rng.random() < 0.995 else rng.choice([4097, 10007])
     pop = [rng.choice(VALUES) for _ in range(n)]
     return tuple(pop) if rng.random() < 0.3 else pop
 
